@@ -1127,11 +1127,22 @@ func (fg *FG) ret(b *ssa.BasicBlock, st *State, t *ssa.Return, pkg *types.Packag
 				}
 			}
 			for _, gs := range fg.c.GhostSets {
-				l := fg.specLoc(gs[0].E, genv)
+				target := gs[0].E
+				var idx *Val
+				if target.Kind == SIndex {
+					// one entry of a ghost map: g[k] = e
+					iv := genv.tr(target.B)
+					idx = &iv
+					target = target.A
+				}
+				l := fg.specLoc(target, genv)
 				if l.Kind != LGhost {
 					fg.fail("ghostset: %s is not a ghost field", gs[0].Src)
 				}
 				v := genv.tr(gs[1].E)
+				if idx != nil {
+					v = Val{T: fmt.Sprintf("(store %s %s %s)", fg.load(pth.st, l), idx.T, v.T), Sort: v.Sort}
+				}
 				saved := fg.R[fg.curBlock]
 				fg.R[fg.curBlock] = pth.cond
 				fg.store(pth.st, l, v.T)
